@@ -134,6 +134,18 @@ def examine_options(birth, match, category):
         a, b = res[(vets, True)], res[(vets, False)]
         if a != b and not ({a, b} <= {'U9', 'U11'}):
             out.append(V('underage-only-changes-under-11', ['options', 'underage', category], dict(base, vets=vets, underage=True), [a, b]))
+    # the options left out: the documented defaults of the entry point (vets=True, underage=False) in every category -
+    # leaving an option out is not a third behaviour
+    for kw, key, how in (({}, (True, False), 'both-omitted'), ({'vets': False}, (False, False), 'underage-omitted'),
+                         ({'underage': True}, (True, True), 'vets-omitted'), ({'vets': True}, (True, False), 'underage-omitted'),
+                         ({'underage': False}, (True, False), 'vets-omitted')):
+        try:
+            r = athlib.calc_uka_age_group(birth, match, category, **kw)
+        except Exception as e:
+            r = 'raises ' + type(e).__name__
+        if r != res[key] and res[key] is not None:
+            out.append(V('omitted-option-is-its-documented-default', ['options', how, category],
+                         dict(base, vets=key[0], underage=key[1], options=kw), r, res[key]))
     return out
 
 
